@@ -231,7 +231,7 @@ func verdict(src string) string {
 		_, dl := checker.CheckSource("<c02>", src, nil, bitfield.BitField16{}, nil)
 		if dl.IsFailure() {
 			for _, d := range dl {
-				if d.Severity == diagnostic.FAILURE {
+				if d.Severity == diagnostic.FAIL {
 					return "reject:" + strings.ReplaceAll(d.Message, "\t", " ")
 				}
 			}
@@ -250,7 +250,10 @@ func runSub(input string) string {
 	if err != nil || !isHead(x, "sub") || len(x.list) != 3 {
 		return "bad-input"
 	}
-	v := verdict(subProgram(x.list[1], x.list[2]))
+	return subVerdict(verdict(subProgram(x.list[1], x.list[2])))
+}
+
+func subVerdict(v string) string {
 	if strings.HasPrefix(v, "reject:") {
 		if strings.Contains(v, "cannot be assigned to type") {
 			return "reject"
@@ -258,6 +261,53 @@ func runSub(input string) string {
 		return "reject-other:" + v[7:]
 	}
 	return v
+}
+
+// runSubBatch checks up to len(inputs) cases with ONE checker run: case k occupies source lines
+// 3k+1..3k+3 (`def fK(y: sigma)` / `var x: tau = y` / `end`), failures are attributed by line. A batch that
+// panics or reports a failure without a usable location is redone case by case.
+func runSubBatch(inputs []string) []string {
+	res := make([]string, len(inputs))
+	var b strings.Builder
+	ok := true
+	for k, in := range inputs {
+		x, err := parseSx(in)
+		if err != nil || !isHead(x, "sub") || len(x.list) != 3 {
+			ok = false
+			break
+		}
+		fmt.Fprintf(&b, "def f%d(y: %s)\n  var x: %s = y\nend\n", k, elkType(x.list[1]), elkType(x.list[2]))
+	}
+	if ok {
+		ok = hx.Guard(func() string {
+			_, dl := checker.CheckSource("<c02>", b.String(), nil, bitfield.BitField16{}, nil)
+			for i := range res {
+				res[i] = "ok"
+			}
+			for _, d := range dl {
+				if d.Severity != diagnostic.FAIL {
+					continue
+				}
+				if d.Location == nil || d.Location.Span == nil || d.Location.StartPos == nil {
+					return "bad"
+				}
+				k := (d.Location.StartPos.Line - 1) / 3
+				if k < 0 || k >= len(res) {
+					return "bad"
+				}
+				if res[k] == "ok" {
+					res[k] = subVerdict("reject:" + strings.ReplaceAll(d.Message, "\t", " "))
+				}
+			}
+			return "fine"
+		}) == "fine"
+	}
+	if !ok {
+		for i, in := range inputs {
+			res[i] = runSub(in)
+		}
+	}
+	return res
 }
 
 func unescape(s string) string {
@@ -283,6 +333,83 @@ func unescape(s string) string {
 func main() {
 	o := hx.ParseFlags()
 	defer hx.Flush()
+	if o.Extra == "checkbatch" {
+		// every input becomes the body of its own method `def w<i>() ... end` (after a common prelude given
+		// on the first line with id "prelude"); 25 methods per checker run, failures attributed by line.
+		sc := bufio.NewScanner(os.Stdin)
+		sc.Buffer(make([]byte, 1<<20), 1<<26)
+		prelude := ""
+		var ids, srcs []string
+		flush := func() {
+			if len(ids) == 0 {
+				return
+			}
+			var b strings.Builder
+			b.WriteString(prelude)
+			line := strings.Count(prelude, "\n") + 1
+			starts := make([]int, len(ids))
+			ends := make([]int, len(ids))
+			for i, src := range srcs {
+				starts[i] = line
+				body := fmt.Sprintf("def w%d()\n%s\nend\n", i, strings.TrimRight(src, "\n"))
+				b.WriteString(body)
+				line += strings.Count(body, "\n")
+				ends[i] = line - 1
+			}
+			res := make([]string, len(ids))
+			fine := hx.Guard(func() string {
+				_, dl := checker.CheckSource("<c02>", b.String(), nil, bitfield.BitField16{}, nil)
+				for i := range res {
+					res[i] = "ok"
+				}
+				for _, d := range dl {
+					if d.Severity != diagnostic.FAIL {
+						continue
+					}
+					if d.Location == nil || d.Location.Span == nil || d.Location.StartPos == nil {
+						return "bad"
+					}
+					ln := d.Location.StartPos.Line
+					hit := false
+					for i := range ids {
+						if ln >= starts[i] && ln <= ends[i] {
+							if res[i] == "ok" {
+								res[i] = "reject:" + strings.ReplaceAll(d.Message, "\t", " ")
+							}
+							hit = true
+						}
+					}
+					if !hit {
+						return "bad"
+					}
+				}
+				return "fine"
+			}) == "fine"
+			for i := range ids {
+				if !fine {
+					res[i] = verdict(prelude + fmt.Sprintf("def w%d()\n%s\nend\n", i, strings.TrimRight(srcs[i], "\n")))
+				}
+				hx.Emit(ids[i], "-", res[i])
+			}
+			ids, srcs = nil, nil
+		}
+		for sc.Scan() {
+			parts := strings.SplitN(sc.Text(), "\t", 2)
+			if len(parts) != 2 {
+				continue
+			}
+			if parts[0] == "prelude" {
+				prelude = unescape(parts[1])
+				continue
+			}
+			ids, srcs = append(ids, parts[0]), append(srcs, unescape(parts[1]))
+			if len(ids) >= 25 {
+				flush()
+			}
+		}
+		flush()
+		return
+	}
 	if o.Extra == "check" {
 		sc := bufio.NewScanner(os.Stdin)
 		sc.Buffer(make([]byte, 1<<20), 1<<26)
@@ -295,10 +422,19 @@ func main() {
 		}
 		return
 	}
-	k := 0
-	for _, in := range hx.ReadInputs(o.Input) {
-		hx.Emit(fmt.Sprintf("k%d", k), in, runSub(in))
-		k++
+	const batch = 40
+	var ids, ins []string
+	flush := func() {
+		for i, r := range runSubBatch(ins) {
+			hx.Emit(ids[i], ins[i], r)
+		}
+		ids, ins = nil, nil
+	}
+	for k, in := range hx.ReadInputs(o.Input) {
+		ids, ins = append(ids, fmt.Sprintf("k%d", k)), append(ins, in)
+	}
+	if len(ins) > 0 {
+		flush()
 	}
 	g := &gen{r: hx.NewRng(o.Seed)}
 	for i := 0; i < o.N; i++ {
@@ -312,7 +448,12 @@ func main() {
 		if g.r.Chance(1, 3) {
 			sigma, tau = tau, sigma
 		}
-		in := L(A("sub"), sigma, tau).String()
-		hx.Emit(fmt.Sprintf("g%d", i), in, runSub(in))
+		ids, ins = append(ids, fmt.Sprintf("g%d", i)), append(ins, L(A("sub"), sigma, tau).String())
+		if len(ins) >= batch {
+			flush()
+		}
+	}
+	if len(ins) > 0 {
+		flush()
 	}
 }
